@@ -336,6 +336,10 @@ def from_code(ex):
     if getattr(ex, '_symx_modelled', False):
         return True
     tb = traceback.extract_tb(ex.__traceback__)
+    if isinstance(ex, core.Hang):
+        # the watchdog fires wherever the interpreter happens to be (usually inside the solver); the path belongs to
+        # the code under test when one of its frames is active
+        return any('/armulator/' in fr.filename for fr in tb)
     return bool(tb) and '/armulator/' in tb[-1].filename
 
 
